@@ -260,9 +260,13 @@ class ConvexSpheropolyhedron(Shape3D):
         extruded_faces = []
         for face, normal in zip(self.polyhedron.faces, self.polyhedron.normals):
             base_vertices = self.polyhedron.vertices[face]
+            # Extrude to both sides of the face: every point of this slab is within
+            # the rounding radius of the face, and no seam is left at the face plane
+            # (where rounding can put a point outside both the core and the prism).
+            inner_vertices = base_vertices - self.radius * normal
             extruded_vertices = base_vertices + self.radius * normal
             extruded_faces.append(
-                ConvexPolyhedron([*base_vertices, *extruded_vertices])
+                ConvexPolyhedron([*inner_vertices, *extruded_vertices])
             )
 
         def check_face(point_id, face_id):
